@@ -54,6 +54,73 @@ type spec struct {
 	ID   uint64  `json:"id"`            // numeric constructors
 	Str  *string `json:"str,omitempty"` // hex: the string / GUID text / bytes argument; null = "" or nil slice
 	Raw  *view   `json:"raw,omitempty"` // ctor == "raw"
+	// Via: the id is not used as constructed but as it comes out of the ExpandedNodeID API, which sets the NamespaceURI (0x80) /
+	// ServerIndex (0x40) flags in the embedded NodeID's mask: x-uri | x-idx | x-both (NewExpandedNodeID(n, uri, idx).NodeID),
+	// x-decode (ExpandedNodeID encoded and decoded again), parse-nsu (ParseExpandedNodeID("nsu=<uri>;<id part>", table).NodeID)
+	Via string `json:"via,omitempty"`
+}
+
+const viaURI = "urn:verif:ns"
+
+var viaTable = []string{"http://opcfoundation.org/UA/", "urn:a", viaURI}
+var viaKinds = []string{"x-uri", "x-idx", "x-both", "x-decode", "parse-nsu"}
+
+// build constructs the id of a spec and then passes it through the ExpandedNodeID API when sp.Via is set.
+func build(sp *spec) (n *ua.NodeID, wf bool, how string) {
+	n, wf, how = build0(sp)
+	if sp.Via == "" || sp.Ctor == "raw" || n == nil {
+		return
+	}
+	defer func() {
+		if r := recover(); r != nil { // the detour itself failed: keep the plain id
+			n, wf, how = build0(sp)
+		}
+	}()
+	switch sp.Via {
+	case "x-uri":
+		return ua.NewExpandedNodeID(n, viaURI, 0).NodeID, wf, "NewExpandedNodeID(" + how + ", uri, 0).NodeID"
+	case "x-idx":
+		return ua.NewExpandedNodeID(n, "", 3).NodeID, wf, "NewExpandedNodeID(" + how + ", \"\", 3).NodeID"
+	case "x-both":
+		return ua.NewExpandedNodeID(n, viaURI, 3).NodeID, wf, "NewExpandedNodeID(" + how + ", uri, 3).NodeID"
+	case "x-decode":
+		if !wf {
+			return
+		}
+		b, err := ua.NewExpandedNodeID(n, viaURI, 2).Encode()
+		if err != nil {
+			return build0(sp)
+		}
+		var d ua.ExpandedNodeID
+		if _, err := d.Decode(b); err != nil || d.NodeID == nil {
+			return build0(sp)
+		}
+		return d.NodeID, wf, "decode(encode(NewExpandedNodeID(" + how + ", uri, 2))).NodeID"
+	case "parse-nsu":
+		if !wf {
+			return
+		}
+		plain := *sp
+		plain.Via = ""
+		plain.Ns = 0
+		m, _, _ := build0(&plain)
+		text := "nsu=" + viaURI + ";" + m.String() // namespace 0 form: "<t>=<id>", or "ns=0;s=..." for ids with ';'
+		if strings.HasPrefix(m.String(), "ns=0;") {
+			text = "nsu=" + viaURI + ";" + m.String()[5:]
+		}
+		e, err := ua.ParseExpandedNodeID(text, viaTable)
+		if err != nil {
+			return build0(sp)
+		}
+		return e.NodeID, wf, fmt.Sprintf("ParseExpandedNodeID(%q, table).NodeID", text)
+	}
+	return
+}
+
+func withVia(sp *spec, via string) *spec {
+	c := *sp
+	c.Via = via
+	return &c
 }
 
 // outcome: code 0 = ok (with the value), 1..11 = classified parse error, 98 = other error, 99 = panic.
@@ -160,7 +227,7 @@ func validGUIDText(s string) bool {
 	return true
 }
 
-func build(sp *spec) (n *ua.NodeID, wf bool, how string) {
+func build0(sp *spec) (n *ua.NodeID, wf bool, how string) {
 	str := ""
 	var raw []byte
 	if sp.Str != nil {
@@ -568,7 +635,19 @@ func (g *G) ctorID(guidValid int) *spec {
 
 func (g *G) genID(n int) []kase {
 	var out []kase
-	add := func(tag string, sp *spec) { out = append(out, kase{Kind: "id", Tag: tag, In: sp}) }
+	add := func(tag string, sp *spec) {
+		if tag == "ctor" && g.r.Intn(100) < 30 {
+			sp = withVia(sp, viaKinds[g.r.Intn(len(viaKinds))])
+		}
+		out = append(out, kase{Kind: "id", Tag: tag, In: sp})
+	}
+	// ids as they come out of the ExpandedNodeID API (flags in the mask)
+	for _, via := range viaKinds {
+		add("via", withVia(&spec{Ctor: "NewStringNodeID", Ns: 2, Str: phx("x")}, via))
+		add("via", withVia(&spec{Ctor: "NewGUIDNodeID", Ns: 2, Str: phx("AAAABBBB-CCCC-DDDD-EEEE-FFFFFFFFFFFF")}, via))
+		add("via", withVia(&spec{Ctor: "NewByteStringNodeID", Ns: 2, Str: phx("abc")}, via))
+		add("via", withVia(&spec{Ctor: "NewNumericNodeID", Ns: 2, ID: 70000}, via))
+	}
 	// boundary values first
 	for _, v := range []uint64{0, 1, 255} {
 		add("b", &spec{Ctor: "NewTwoByteNodeID", ID: v})
@@ -632,7 +711,18 @@ func (g *G) genPair(n int) []kase {
 		if r.Bool() {
 			a, b = b, a
 		}
+		if a.Ctor != "raw" && a.Via == "" && r.Intn(100) < 35 {
+			a = withVia(a, viaKinds[r.Intn(4)]) // not parse-nsu: it changes the namespace
+		}
+		if b.Ctor != "raw" && b.Via == "" && r.Intn(100) < 12 {
+			b = withVia(b, viaKinds[r.Intn(4)])
+		}
 		out = append(out, kase{Kind: "pair", Tag: tag, A: a, B: b})
+	}
+	for _, via := range viaKinds {
+		out = append(out, kase{Kind: "pair", Tag: "via", A: withVia(&spec{Ctor: "NewStringNodeID", Ns: 2, Str: phx("x")}, via), B: &spec{Ctor: "NewStringNodeID", Ns: 2, Str: phx("x")}})
+		out = append(out, kase{Kind: "pair", Tag: "via", A: withVia(&spec{Ctor: "NewByteStringNodeID", Ns: 2, Str: phx("abc")}, via), B: &spec{Ctor: "NewByteStringNodeID", Ns: 2, Str: phx("abc")}})
+		out = append(out, kase{Kind: "pair", Tag: "via", A: withVia(&spec{Ctor: "NewGUIDNodeID", Ns: 2, Str: phx("AAAABBBB-CCCC-DDDD-EEEE-FFFFFFFFFFFF")}, via), B: withVia(&spec{Ctor: "NewGUIDNodeID", Ns: 2, Str: phx("aaaabbbbccccddddeeeeffffffffffff")}, "x-idx")})
 	}
 	numEnc := func(ns, v uint64) []*spec {
 		var l []*spec
